@@ -608,6 +608,7 @@ CleanOps(gr) ==
   \cup {CleanOp("targets", <<t>>, FALSE, n) : t \in AllOutsG(gr), n \in BOOLEAN}
   \cup {CleanOp("targets", SetToSeq(AllOutsG(gr)), FALSE, FALSE)}
   \cup {CleanOp("rules", <<RuleName(i)>>, FALSE, n) : i \in Cmds(gr), n \in BOOLEAN}
+  \cup {CleanOp("rules", <<"phony">>, FALSE, n) : n \in BOOLEAN}
 DropStmt(gr, k) == [i \in 1..(Len(gr.stmts) - 1) |-> LET s == gr.stmts[IF i < k THEN i ELSE i + 1] IN [s EXCEPT !.id = i]]
 \* variants of the manifest: statement k removed (the remaining ones renumbered) if nothing consumes its outputs
 Droppable(gr) == {k \in DOMAIN gr.stmts : (\A i \in DOMAIN gr.stmts : gr.stmts[i].dd = "" /\ (i > k => ~gr.stmts[i].gen)) /\ \A o \in ToSet(gr.stmts[k].outs) \cup ToSet(gr.stmts[k].iouts) : o \notin Consumed(gr)}
@@ -618,6 +619,7 @@ CleanGraphs(K) ==
 \* graphs for the design-level model of the cleaner (spec/Clean.tla): TLC adds the files that exist, the log and the scope
 FamCleanMC(K, CH) ==
   UNION {GraphsS(sh, {"plain", "gen", "two", "iout", "rsp", "depfile", "gcc"}, K) : sh \in {"chain2", "fanin", "alias", "valid", "oonly"}}
+  \cup {Graph(<<[St1(1, <<"o1">>, <<"s1">>, <<>>) EXCEPT !.val = <<"v">>], St1(2, <<"o2">>, <<"o1">>, <<>>)>>)}     \* a validation target without a statement
   \cup {x \in DynGraphs : Len(x.stmts) <= 3} \cup Pick(3, CycGraphs(1))
 FamClean(K, CH) ==
   UNION { {Scn(gr, <<Build(Roots(gr), 2, 1), c, Build(Roots(gr), 2, 1), Build(Roots(gr), 2, 1)>>) : c \in Pick(CH, CleanOps(gr))}
@@ -630,11 +632,17 @@ FamClean(K, CH) ==
                   n \in {2, 3}, c \in Pick(CH, CleanOps(gr))}
           \cup {Scn(gr, <<Build(Roots(gr), 2, 1), [op |-> "setstmts", stmts |-> ToGcc(gr)], c, Build(Roots(gr), 2, 1), Build(Roots(gr), 2, 1)>>) :
                   c \in Pick(CH, CleanOps(gr))}
+          \* a phony name that also exists as a file, cleaned by rule name
+          \cup UNION { {Scn(gr, <<Build(Roots(gr), 2, 1), [op |-> "edit", f |-> gr.stmts[i].outs[1]], CleanOp("rules", <<"phony">>, FALSE, n), Build(Roots(gr), 2, 1)>>) : n \in BOOLEAN} :
+                        i \in {j \in DOMAIN gr.stmts : gr.stmts[j].phony} }
           \* cleandead on the unchanged manifest: nothing is dead, dyndep-declared outputs included
           \cup {Scn(gr, <<Build(Roots(gr), 2, 1), CleanOp("dead", <<>>, FALSE, n), Build(Roots(gr), 2, 1)>>) : n \in BOOLEAN}
           \cup {Scn(gr, <<Build(Roots(gr), 2, 1), [op |-> "setstmts", stmts |-> DropStmt(gr, k)], CleanOp("dead", <<>>, FALSE, n),
                            Build(<<>>, 2, 1)>>) : k \in Droppable(gr), n \in BOOLEAN} :
           gr \in CleanGraphs(K) }
+  \* the statement that produced a validation target is dropped: the file is still named by the graph (cleandead keeps it)
+  \cup UNION { {Scn(gr, <<Build(SetToSeq(AllOutsG(gr)), 2, 1), [op |-> "setstmts", stmts |-> DropStmt(gr, 1)], CleanOp("dead", <<>>, FALSE, n), Build(<<>>, 2, 1)>>) : n \in BOOLEAN} :
+                gr \in {Graph(<<St1(1, <<"o1">>, <<"s1">>, <<>>), [St1(2, <<"o2">>, <<"s2">>, <<>>) EXCEPT !.val = <<"o1">>], St1(3, <<"o3">>, <<"o2">>, <<>>)>>)} }
   \* cleaning does not need an acyclic graph: manifests with dependency cycles (which only a build diagnoses)
   \cup UNION { {Scn(gr, <<c>>) : c \in Pick(CH + 2, {x \in CleanOps(gr) : x.mode \in {"targets", "all"}})} : gr \in CycGraphs(K) }
 
